@@ -251,6 +251,19 @@ class Interp:
                         merged[k] = join_val(merged.get(k), s.get(k)) if k in merged and k in s else (merged.get(k) if k in merged else s.get(k))
                 out += self.block(st.orelse, [merged])
             return out
+        if hasattr(ast, "Match") and isinstance(st, ast.Match):
+            for env in states:
+                self.env = env
+                self.ev(st.subject)
+                for case in st.cases:
+                    e2 = dict(env)
+                    for n in ast.walk(case.pattern):
+                        nm = getattr(n, "name", None)
+                        if isinstance(nm, str):
+                            e2[nm] = self.ev(st.subject)
+                    out += self.block(case.body, [e2])
+                out.append(dict(env))  # no case matched
+            return out
         if isinstance(st, ast.With):
             for env in states:
                 self.env = env
